@@ -257,14 +257,37 @@ func (c *Ctx) c16Info() {
 		pred := ph.Block().Preds[i]
 		last := pred.Instrs[len(pred.Instrs)-1]
 		cst, isC := e.(*ssa.Const)
+		conds := []*Cond{set, reached}
 		if !isC || cst.Value == nil {
-			okAll, why = false, "a non-constant value flows into the flag"
+			// `disabled = max > 0 && balance >= max`: the last operand flows in as a value; the flag equals the
+			// conjunction iff that value is one of the two comparisons and the other is established on the way
+			f := o.condFact(e, true)
+			switch {
+			case f != nil && reached.Match(f, o):
+				conds = []*Cond{set}
+			case f != nil && set.Match(f, o):
+				conds = []*Cond{reached}
+			default:
+				okAll, why = false, "a value that is neither of the two comparisons flows into the flag"
+				continue
+			}
+			nTrue++
+			for _, cd := range conds {
+				acc := o.AcceptEdges(cd)
+				cut := NewCut()
+				for ed := range acc {
+					cut.Edges[ed] = true
+				}
+				if reach, _ := ReachFromEntry(op, last, cut); reach {
+					okAll, why = false, fmt.Sprintf("through %s the flag is the value of one comparison but [%s] is not established on the way", c.P.InstrPos(last), cd.Name)
+				}
+			}
 			continue
 		}
 		val := cst.Value.ExactString() == "true"
 		// reaching the phi through this predecessor: both facts established?
 		both := true
-		for _, cd := range []*Cond{set, reached} {
+		for _, cd := range conds {
 			acc := o.AcceptEdges(cd)
 			cut := NewCut()
 			for ed := range acc {
